@@ -340,6 +340,8 @@ class Folder:
             raise Unfoldable(f"{name}: {self.failed[name]}")
         if self._outer is not None:
             return self._outer.lookup(name)
+        if self.cls is None and self.module.has_cls(name):
+            return ClassRef(self.module.name, name)
         if name in self._imports:
             src, attr = self._imports[name]
             if src in self.repo.modules:
@@ -429,12 +431,14 @@ class Folder:
             if isinstance(node.op, ast.Mod) and isinstance(l, str):
                 return l % r
             raise Unfoldable(norm(node))
-        if isinstance(node, ast.Set):
-            return {self.ev(e) for e in node.elts}
-        if isinstance(node, ast.List):
-            return [self.ev(e) for e in node.elts]
-        if isinstance(node, ast.Tuple):
-            return tuple(self.ev(e) for e in node.elts)
+        if isinstance(node, (ast.Set, ast.List, ast.Tuple)):
+            items: List[Any] = []
+            for e in node.elts:
+                if isinstance(e, ast.Starred):
+                    items.extend(list(self.ev(e.value)))
+                else:
+                    items.append(self.ev(e))
+            return set(items) if isinstance(node, ast.Set) else (items if isinstance(node, ast.List) else tuple(items))
         if isinstance(node, ast.Dict):
             out = {}
             for k, v in zip(node.keys, node.values):
